@@ -186,6 +186,16 @@ func SplitDep(t *rapid.T, f *ir.File, types []string) {
 			}
 		}
 	}
+	// The two files may spell the same Go package differently in their go_package options ("path" and "path;name").
+	if len(moved) > 0 && rapid.IntRange(0, 2).Draw(t, "depgopkg") == 0 {
+		if i := strings.Index(f.GoPackage, ";"); i < 0 {
+			if last := f.GoPackage[strings.LastIndex(f.GoPackage, "/")+1:]; last != "" && !strings.ContainsAny(last, ".-") && f.GoPackage != "" {
+				f.DepGoPackage = f.GoPackage + ";" + last
+			}
+		} else if last := f.GoPackage[:i][strings.LastIndex(f.GoPackage[:i], "/")+1:]; last == f.GoPackage[i+1:] {
+			f.DepGoPackage = f.GoPackage[:i]
+		}
+	}
 	for i, e := range f.Enums {
 		// enums the moved messages use must move; others may
 		if enums[e.Name] || (len(moved) > 0 && rapid.IntRange(0, 3).Draw(t, fmt.Sprintf("depenum%d", i)) == 0) {
@@ -489,6 +499,13 @@ func FieldOptions(t *rapid.T, f *ir.File, c *ir.Config, o KOpts) {
 				used[ct] = true
 			}
 			for _, ct := range ir.SortedKeys(used) {
+				if _, has := c.Suffixes[ct]; !has && strings.Count(ct, "/") >= 2 {
+					// ... and entries for types of the same name in sibling packages, equally "close" to the type in use
+					dir, base := ct[:strings.LastIndex(ct, "/")], ct[strings.LastIndex(ct, "/")+1:]
+					parent := dir[:strings.LastIndex(dir, "/")]
+					c.Suffixes[parent+"/legacy/"+base] = "DecoyLegacy"
+					c.Suffixes[parent+"/v2/"+base] = "DecoyV2"
+				}
 				if i := strings.LastIndex(ct, "."); i >= 0 {
 					if _, has := c.Suffixes[ct]; !has {
 						if _, taken := c.Suffixes[ct[i+1:]]; !taken && !used[ct[i+1:]] {
